@@ -52,7 +52,7 @@ func RenameRepo(repo, newRepo string, stores context2.Stores) error {
 		for i := uint64(0); i < indexFiles; i++ {
 			oldFileList := model.GetArchivePathToBundleFileList(repo, bundle.ID, i)
 			rdr, ee := b.MetaStore().Get(ctx, oldFileList)
-			if e != nil {
+			if ee != nil {
 				return ee
 			}
 
